@@ -38,6 +38,7 @@ func runC18(p *Program, e *Engine, r *Result, tier string) {
 	}
 	computeRemoval(a, kf)
 	ro := a.Ro
+	readsTableEngine = a.E
 	// the seen table: a string-keyed set that is not the user table, written by a function taking (string, bool)
 	var seenT *types.Var
 	for _, t := range ro.Tables {
@@ -170,8 +171,8 @@ func runC18(p *Program, e *Engine, r *Result, tier string) {
 	var clear DNF
 	var clearPos string
 	for _, v := range w.Visits {
-		if args, ok := isBuiltinCall(v.Instr, "delete"); ok && v.Ctx.fieldOfValue(args[0]) == seenT && v.Ctx.Parent != nil && v.Ctx.Parent.Parent == nil {
-			// markSeen(name,false) called directly by the reader
+		if args, ok := isBuiltinCall(v.Instr, "delete"); ok && v.Ctx.fieldOfValue(args[0]) == seenT && v.Ctx.Parent != nil {
+			// markSeen(name,false) called by the reader (at any depth), but not as part of a watch removal
 			if kf.inRemoval(v.Ctx) {
 				continue
 			}
@@ -265,7 +266,7 @@ func runC18(p *Program, e *Engine, r *Result, tier string) {
 	a.R.ob("C18.4", "translator:link-name", "events for a watch added through a symlink are named after the link", "-", linkOK, "")
 }
 
-// readsTable: fn looks table t up (directly).
+// readsTable: fn looks table t up, directly or through package-local helpers it hands the table to.
 func readsTable(fn *ssa.Function, t *types.Var) bool {
 	for _, b := range fn.Blocks {
 		for _, in := range b.Instrs {
@@ -274,8 +275,18 @@ func readsTable(fn *ssa.Function, t *types.Var) bool {
 			}
 		}
 	}
+	if readsTableEngine == nil {
+		return false
+	}
+	for _, v := range readsTableEngine.Walk(fn, WalkOpts{NoCond: true}).Visits {
+		if lk, ok := v.Instr.(*ssa.Lookup); ok && v.Ctx.fieldOfValue(lk.X) == t {
+			return true
+		}
+	}
 	return false
 }
+
+var readsTableEngine *Engine
 
 // sameActivation: u happens in the same activation of fn as v (the nearest ancestor context of fn is shared).
 func sameActivation(uc, vc *Ctx, fn *ssa.Function) bool {
